@@ -251,7 +251,7 @@ func (x *Explorer) svcEvent() (gw.Action, bool) {
 			x.changePolicy(name(n))
 		}
 		a.Ev, a.Text, a.Abs = "reaccess", "", sn+"\treaccess"
-	case k < 5 && x.P.Deletes && !(x.P.Clean && (x.anyOutstanding(name(n)) || hasRefs(c))):
+	case k < 5 && x.P.Deletes && !(x.P.Clean && (x.anyOutstanding(name(n)) || hasRefs(c) || x.referenced(n))):
 		// (clean mode: no delete while a request for the resource is outstanding — recorded finding KF-P1)
 		a.Ev, a.Text, a.Abs = "delete", "", sn+"\tdelete"
 		x.Truth[name(n)] = nil
@@ -381,6 +381,9 @@ func Explore(seed int64, p Profile) (run *gw.Run, stall error) {
 		c.ResetThrottle = p.Throttle
 	})
 	run = x.Run
+	if actionLog != nil {
+		run.ActionLog = actionLog
+	}
 	defer func() {
 		if e := recover(); e != nil {
 			if se, ok := e.(*gw.StallError); ok {
@@ -540,6 +543,9 @@ func Explore(seed int64, p Profile) (run *gw.Run, stall error) {
 
 var closed = map[*gw.Run]map[string]bool{}
 
+// actionLog, when set by the child process, receives the actions as they are executed.
+var actionLog *os.File
+
 func cClosed(r *gw.Run, c *gw.Client) bool {
 	m := closed[r]
 	if m == nil {
@@ -603,7 +609,18 @@ func Replay(path string) (run *gw.Run, stall error) {
 			}
 			continue
 		}
+		n0 := len(run.Lines)
+		if os.Getenv("GW_ECHO") != "" {
+			fmt.Fprintf(os.Stderr, "ACTION %s %s %s %d\n", a.A, a.C, a.Text, a.N)
+		}
 		run.Do(a)
+		if os.Getenv("GW_ECHO") != "" {
+			for _, l := range run.Lines[n0:] {
+				if !strings.HasPrefix(l, "RAWOUT") {
+					fmt.Fprintln(os.Stderr, l)
+				}
+			}
+		}
 	}
 	return run, nil
 }
@@ -689,4 +706,25 @@ func (x *Explorer) changePolicy(rname string) {
 			x.pol[k] = p
 		}
 	}
+}
+
+// referenced reports whether some other resource's truth holds a (hard) reference to resource n.
+func (x *Explorer) referenced(n int) bool {
+	for i := 0; i < x.P.Resources; i++ {
+		c := x.Truth[name(i)]
+		if c == nil || i == n {
+			continue
+		}
+		for _, v := range c.M {
+			if v.K == 'r' && v.N == n {
+				return true
+			}
+		}
+		for _, v := range c.L {
+			if v.K == 'r' && v.N == n {
+				return true
+			}
+		}
+	}
+	return false
 }
